@@ -1,6 +1,7 @@
 import CC.Lemmas.Edits
 import CC.Lemmas.Leb
 import CC.Lemmas.World
+import CC.Lemmas.Contig
 /-! # C03 — access decisions stay correct across access-structure edits
 
 Rights are named by attribute *identifiers*; the theorems show that identifiers are permanent
@@ -90,6 +91,32 @@ names are unique and **no identifier is shared by two attributes** — so the ri
 attribute sets are different byte strings, and a new attribute never inherits another's rights -/
 theorem reachable_structure_wf (w : World) (hw : Reachable w) :
     w.msk.structure_.WF ∧ w.msk.structure_.IdsBelow := reachable_struct_wf w hw
+
+/-- **Edits never change the secrets of unrelated rights, over every history.** In any reachable
+world, a structure edit changes no secret at all, and the `update_msk` that makes edits effective
+either removes a right (one of its attributes or its dimension was deleted) or leaves its chain of
+secrets exactly as it was (only the activation flag of the newest one is recomputed). So a user
+key opens encapsulations for a surviving right after the edits exactly as before: the published
+key of that right is still the same secret. -/
+theorem edits_keep_secrets (w : World) (hw : Reachable w) (k : Right) (c : List (Bool × Sk))
+    (hl : w.msk.secrets.lookup k = some c) :
+    (∀ e, (w.step (.edit e)).msk.secrets.lookup k = some c) ∧
+    ((w.step .update).msk.secrets.lookup k = none ∨
+      ∃ c', (w.step .update).msk.secrets.lookup k = some c' ∧ c'.map (·.2) = c.map (·.2)) := by
+  refine ⟨?_, update_keeps_secrets w hw k c hl⟩
+  intro e
+  simp only [World.step]
+  cases w.msk.structure_.apply e <;> exact hl
+
+/-- no operation whatsoever alters an existing secret of a right: it can only remove the right
+(update after a deletion), put newer secrets in front of the chain (rekey), or keep the newest only
+(prune) -/
+theorem operations_never_alter_secrets (w : World) (hw : Reachable w) (op : Op) (k : Right) (c : List (Bool × Sk))
+    (hl : w.msk.secrets.lookup k = some c) :
+    (w.step op).msk.secrets.lookup k = none ∨
+    ∃ c', (w.step op).msk.secrets.lookup k = some c' ∧
+      ((∃ news : List Sk, c'.map (·.2) = news ++ c.map (·.2) ∧ ∀ x ∈ news, w.rng ≤ x.tok) ∨
+       c'.map (·.2) = (c.map (·.2)).take 1) := step_secrets w hw op k c hl
 
 /-- non-vacuity: delete then add — the new attribute gets a new identifier (2), not the deleted one's (0) -/
 example : (Struct.empty.run [.addDim "D" false, .addAttr "D" "A" false none, .addAttr "D" "B" false none,
